@@ -16,7 +16,7 @@ import (
 var Shapes = []string{
 	"text", "textcrlf", "html", "cyrillic", "cjk", "utf8big", "dna", "numeric", "base64",
 	"elfx86", "pe", "elfarm64", "elfbogus", "pebogus", "machobogus", "wav", "bmp", "ppm", "runs", "zeros",
-	"skewed", "raredom", "ramp255", "ramp256", "smallalpha", "periodic", "random", "magicmix", "repeatblocks", "sorted", "utf8dirty", "longruns", "farmatch", "crlfcut", "constchunks", "randtext", "bigvocab", "fsdstress", "ffmix", "wordlist",
+	"skewed", "raredom", "ramp255", "ramp256", "smallalpha", "periodic", "random", "magicmix", "repeatblocks", "sorted", "utf8dirty", "longruns", "farmatch", "crlfcut", "constchunks", "randtext", "bigvocab", "fsdstress", "ffmix", "wordlist", "staircase", "staircase2",
 }
 
 var words = strings.Fields(`the of and to a in is that it was for on are as with his they at be this from have or by one had not but what all were
@@ -289,6 +289,46 @@ func Make(shape string, n int, seed int64) []byte {
 			}
 		}
 		b = b[:n]
+	case "staircase", "staircase2":
+		// a histogram that defeats length-limited prefix codes: a few symbols of tiny equal counts, then counts growing like a
+		// Fibonacci sequence up to exactly n in total (optimal code lengths far above 12 bits with only ~2000 samples)
+		var counts []int
+		sum := 0
+		for i, m := 0, 2+r.Intn(8); i < m && sum+3 < n; i++ {
+			c := 2 + r.Intn(2)
+			counts = append(counts, c)
+			sum += c
+		}
+		a, bb := 3, 5+r.Intn(4)
+		if shape == "staircase2" {
+			// a gap between the tiny counts and the start of the staircase (no symbol with an intermediate code length)
+			a = 10 + r.Intn(8)
+			bb = a + 8 + r.Intn(8)
+			counts = append(counts, a)
+			sum += a
+		}
+		for sum+a+bb < n && len(counts) < 250 {
+			counts = append(counts, bb)
+			sum += bb
+			a, bb = bb, a+bb+r.Intn(3)
+		}
+		if rest := n - sum; rest > 0 {
+			if len(counts) > 0 && rest < counts[len(counts)-1] {
+				counts[len(counts)-1] += rest // keep the staircase monotone
+			} else {
+				counts = append(counts, rest)
+			}
+		}
+		base := r.Intn(257 - len(counts))
+		for i, c := range counts {
+			for k := 0; k < c; k++ {
+				b = append(b, byte(base+i))
+			}
+		}
+		for i := len(b) - 1; i > 0; i-- {
+			j := r.Intn(i + 1)
+			b[i], b[j] = b[j], b[i]
+		}
 	case "fsdstress":
 		// smooth ramps where the multimedia detector samples (so that delta coding is selected) and large jumps elsewhere
 		// (every byte then needs the 2-byte escape form: the output margin is exhausted)
